@@ -1,4 +1,4 @@
-import BoltonsVerif.C14.Accept
+import BoltonsVerif.C14.Errors
 /-
 C14 — property theorems for the model of the `boltons.strutils` encoders.
 
@@ -504,6 +504,43 @@ theorem int_ranges_of_format (d rd : Char) (ok : DelimOK d rd) (L : List Nat) (s
   exact format_canonical_unique_delims d rd L sp rs h2 (fun x => by rw [h3, mem_sortDedup])
 
 example : intRanges "1; 3; 5:8".toList ';' ':' = some [(1, 1), (3, 3), (5, 8)] := by decide +kernel
+
+/-! ### exactly when the integer-list readers raise ValueError (round 3)
+
+(the statement is silent about malformed range strings; these theorems pin down the error behaviour of the
+model, which the correspondence compares with the code's on every text over digits, the two delimiters and
+blanks: `none` = ValueError) -/
+
+/-- `int(x)` (on the model's alphabet) fails exactly on a blank-only / empty string or one with a non-digit inside -/
+theorem int_literal_valueError_iff (s : Str) :
+    pyInt? s = none ↔ (strip s = [] ∨ ∃ c ∈ strip s, isDigit c = false) := pyInt_eq_none_iff s
+
+/-- a token fails exactly when it is a range token one of whose parts is not an integer, or a non-empty
+    non-range token that is not an integer (the EMPTY token is skipped, not an error) -/
+theorem parse_token_valueError_iff (rd : Char) (t : Str) :
+    parseTok rd t = none ↔
+      ((rd ∈ t ∧ ∃ p ∈ splitOn rd t, pyInt? p = none) ∨ (rd ∉ t ∧ t ≠ [] ∧ pyInt? t = none)) :=
+  parseTok_eq_none_iff rd t
+
+/-- `parse_int_list` raises exactly when some token of the stripped text fails; no other source of errors -/
+theorem parse_valueError_iff (s : Str) (d rd : Char) :
+    parseIntList s d rd = none ↔ ∃ t ∈ splitOn d (strip s), parseTok rd t = none :=
+  parseIntList_eq_none_iff s d rd
+
+/-- `complement_int_list` and `int_ranges_from_int_list` raise exactly when `parse_int_list` does
+    (whatever the window) -/
+theorem complement_valueError_iff (s : Str) (a : Int) (e : Option Int) (d rd : Char) :
+    complementIntList s a e d rd = none ↔ parseIntList s d rd = none := complement_eq_none_iff s a e d rd
+
+theorem int_ranges_valueError_iff (s : Str) (d rd : Char) :
+    intRanges s d rd = none ↔ parseIntList s d rd = none := intRanges_eq_none_iff s d rd
+
+example : parseIntList "1,,3".toList = some [1, 3] := by decide +kernel
+example : parseIntList "1,x".toList = none := by decide +kernel
+example : parseIntList "1-,3".toList = none := by decide +kernel
+example : parseIntList " 1 , 2-4 \n".toList = some [1, 2, 3, 4] := by decide +kernel
+example : parseIntList "1 2".toList = none := by decide +kernel
+example : parseIntList "3-1-2".toList = some [1, 2, 3] := by decide +kernel
 
 /-- translator obligation: the default `delim` / `range_delim` of the integer-list functions (read from the
     signatures on every run) form an admissible pair, so every `_delims` theorem applies to the defaults
